@@ -12,773 +12,911 @@ Definition show_fres (r : fres) : string :=
   end.
 Definition check (rs : list rune) : string := digest (show_fres (format_res rs)).
 Definition full (rs : list rune) : string := show_fres (format_res rs).
-Eval vm_compute in ("<<<M317>>>" ++ check (runes_of_ascii "MetaData Logon
-    {
-    char[]u8x , matchKey pack,
-u8 int ``, char[ 007
-    ]
-msg_type ,
-BodyLength o	,string_ crc  `a\`, } options	{
-    //x
-    trueish = int16 Packet
-    = char MetaDataX=
-char[
-//
-// trailing space 
-255 ] // a // b
-;}	root
-    //
-    packet a1 // packet A { u8 x, }
-{ } root packet // c
-MetaDataX{
-@lengthOf(_x)
-repeat
-Logon{// " ++ [128512]%N ++ runes_of_ascii " emoji
-o
-a1 , uint64
-    u128 ,  } ,zchar[007] chars
-    `line1
-line2` ,	repeat Header u128`doc`, // " ++ [128512]%N ++ runes_of_ascii " emoji
-@calculatedFrom(""1"")int
-trueish
-, char[0123456789
-    ]
-uint8x,
-i8 int	@lengthOf( msg_type )`line1
-line2`
-,
-    //x
-    @rightPad (
-) repeat f64 Z9_, metadata{ falsey @calculatedFrom(
-""abc""
-) , }, options1 @calculatedFrom( ""\n"" ) ,@calculatedFrom(	""\n"" )  match metadata
-    as Header {[
-    """" ,  ""1"" ] :	Foo //
-, [  ""\n""
-, 10
-,
-// " ++ [27880; 37322]%N ++ runes_of_ascii "
-// c
-""{,}"" ]
-: Logon
-,
-[
-    """"] :
-len
-, ""\n""  :// trailing space 
-msg_type , [ // c
-00 ]
-    : trueish , 10 : u8x, }
-    ,
-    } // " ++ [27880; 37322]%N ++ runes_of_ascii "
-root
-packet
-    BodyLength
-    { char[42
-] body  @calculatedFrom(
-    ""{,}"" ) `tab	here` // trailing space 
-,
-i32
-stringy  @calculatedFrom( """ ++ [28040; 24687]%N ++ runes_of_ascii """ ),  @tag(  0123456789	)
-@rightPad ( )@tag( 00 )  i16 a1 @lengthOf( pack// a // b
-) ,
-    @tag( 10
-)
-@leftPad ('\x00' ) // `tick` ""quote"" 'q'
-@calculatedFrom( ""a\""b"" ) repeat char[] // c
-stringy `
-`	, chars `say ""hi""`,
-@lengthOf(  a1 ) @leftPad( '0'  )
-    match Z9_
-as Header { 00
-    //	t
-    : As ,
-} // " ++ [27880; 37322]%N ++ runes_of_ascii "
-, o @calculatedFrom( """ ++ [128512]%N ++ runes_of_ascii """
-    )
-, @leftPad //	t
-(	)As// trailing space 
-@calculatedFrom( ""// no comment"") ,
-match x_y_z  as
-    BodyLength {
-""x y"" // `tick` ""quote"" 'q'
-:BodyLength
-, """ ++ [28040; 24687]%N ++ runes_of_ascii """  : packetx  , 0 :
-    Header ,
-    ""x y"" : matchKey
-    //	t
-    ,}, } // trailing space ")).
-Eval vm_compute in ("<<<M43>>>" ++ check (runes_of_ascii "packet asx {
-    leftPad@calculatedFrom( """ ++ [233]%N ++ runes_of_ascii "t" ++ [233]%N ++ runes_of_ascii """ ) , @leftPad
-(  '0')
-    // trailing space 
-    u8x As `crlf
-line` ,char[ 3 ] asx @calculatedFrom( ""{,}"" )  ,
-// @lengthOf(
-// trailing space 
-repeat u128  { int {packetx @calculatedFrom( ""packet"" )
-    ,	match
-T as  T
-{ ""a	b""
-: o , } , zchar[ 00
-    ]lengthOf
-`{ , }` ,
-/// triple
-// trailing space 
-char[] crc @calculatedFrom( ""abc"" )
-, } , Header	@calculatedFrom( """ ++ [233]%N ++ runes_of_ascii "t" ++ [233]%N ++ runes_of_ascii """ )
-`two words` ,
-repeat uint8 uint8x , repeat
-    //
-    char[0123456789 ]float`u8 x,`,} ,
-packetx x `say ""hi""` , @rightPad ( )
-i8i8
-    @calculatedFrom( ""x y""), @leftPad
-    ( ) BodyLength {repeat	int32
-_x ``  , i8 msg_type
-`doc` //
-, }, }
-// `tick` ""quote"" 'q'
-// packet A { u8 x, }
-packet body { }	packet	repeatCount{zchar[  3 ] Packet, @lengthOf( // @lengthOf(
-Header  )
-    i64
-// c
-// c
-Packet `two words` ,
-zchar[ 65535
-]calculatedFrom `tab	here`//	t
-, match x as leftPad
-    { ""// no comment"": rootA
-    , ""`tick`"" :
-o,
+Eval vm_compute in ("<<<M1541>>>" ++ check (runes_of_ascii "options {
+    MetaDataX = true
 }
-,// " ++ [128512]%N ++ runes_of_ascii " emoji
-zchar[ //	t
-3 ]
-// packet A { u8 x, }
-// " ++ [27880; 37322]%N ++ runes_of_ascii "
-u128 @calculatedFrom( ""{,}"" ) `{ , }`
-    ,
+
+root packet u8x {
+    repeat uint16 u8x `" ++ [28040; 24687; 31867; 22411]%N ++ runes_of_ascii "`,
+    @tag(42)
+    char[7] trueish @lengthOf(Pad),
+    tag @lengthOf(A) `say ""hi""`,
+    float rootA,// " ++ [27880; 37322]%N ++ runes_of_ascii "
+    Foo,
+    repeat uint32 calculatedFrom,
 }
-    //	t
-    options { u = char[ 42 ] // " ++ [27880; 37322]%N ++ runes_of_ascii "
-metadata
-=""a\\""
-;  Logon =
-string ; Z9_ = u16
-;  }
-")).
-Eval vm_compute in ("<<<M1898>>>" ++ check (runes_of_ascii "  MetaData	len {
-i8
-_x 
-        //	t
-      `` ,  zchar[  00]
-tag 
+
+root packet u128 {
+    repeat Packet metadata,
+    repeat zchar[0123456789] len `u8 x,`,
+    f32 BodyLength @lengthOf(Z9_) `it's`,
+    match crc as Packet {
+        0 : i64_,
+        [255] : rootA,
+        [""a	b"", ""\" ++ [233]%N ++ runes_of_ascii """, ""\" ++ [233]%N ++ runes_of_ascii """, 0, 4294967296] : i8i8,
+    },
+    @tag(1)
+    @calculatedFrom(""\" ++ [233]%N ++ runes_of_ascii """)
+    string f32a @calculatedFrom(""abc""),
+    repeat As {
+        matchKey {
+            crc @calculatedFrom(""// no comment""),
+        },
+        lengthOf `crlf
+                line`,
+        // a // b
+        // a // b
+        T Pad `a\`,
+        repeat i8i8 charz,// a // b
+    },
+}
+
+packet packetx {
+    @lengthOf(Packet)
+    repeat uint8x `line1
+        line2`,
+    @tag(0123456789)
+    string BodyLength @calculatedFrom(""" ++ [28040; 24687]%N ++ runes_of_ascii """),// trailing space 
+    zchar[42] MetaDataX,
+    char A @lengthOf(tag) `two words`,
+    @tag(10)
+    @calculatedFrom(""" ++ [28040; 24687]%N ++ runes_of_ascii """)
+    @calculatedFrom(""x y"")
+    char[7] repeatCount @calculatedFrom(""// no comment""),
+    @calculatedFrom(""it's"")
+    char[65535] packetx `// not a comment`,
+    @leftPad(' ')
+    match tag as packetx {
+        00 : int,
+    },
+    @tag(7)
+    @lengthOf(float)
+    @tag(0123456789)
+    Z9_,
+    @tag(00)
+    tag {
+        uint16 MetaDataX,
+        u tag `tab	here`,
+        float64 Packet @calculatedFrom(""{,}""),
+        x_y_z u128,
+    },
+    char[] msg_type @lengthOf(calculatedFrom) `line1
+        line2`,
+}
+
+MetaData float {
+    uint32 crc,
+    charz msg_type,
+    u128 crc,
+    string stringy `" ++ [233]%N ++ runes_of_ascii "`,
+}")).
+Eval vm_compute in ("<<<M1828>>>" ++ check (runes_of_ascii "options
+    {StringPrefixLenType
+	= u16	;  ArrayPrefixLenType	= u16
+;
+}	packet  SampleBinary { 
+uint16 MsgType
+
+`" ++ [28040; 24687; 31867; 22411]%N ++ runes_of_ascii "`
+,
+u16 
+BodyLenght  @lengthOf( Body )
+
+`" ++ [28040; 24687; 20307; 38271; 24230]%N ++ runes_of_ascii "`, match MsgType
+
+as
+Body
+	{
+	1
+
+:Logon
+	,
+    2 :Logout
+
 ,
 
-roots
+    3
+    :  Heartbeat
+, 4:	RiskControlRequest ,5
+:  RiskControlResponse
+    , } ,
+    @calculatedFrom( ""CRC32""  ) u32 Ckecksum
+`" ++ [26657; 39564; 21644]%N ++ runes_of_ascii "` , 
+} packet Logon
+{	@leftPad( 
+'0' ) char[ 10
+
+    ] 
+UserName
+
+    `" ++ [29992; 25143; 21517]%N ++ runes_of_ascii "` , string Password `" ++ [23494; 30721]%N ++ runes_of_ascii "`
+,  uint64  ClientId `" ++ [23458; 25143; 31471]%N ++ runes_of_ascii "ID` ,
+u16
+    HeartbeatInterval
+
+`" ++ [24515; 36339; 38388; 38548]%N ++ runes_of_ascii "`,
+} packet Logout
+{@rightPad
+    (
+	'0')
+	char[
+10 ]  UserName `" ++ [29992; 25143; 21517]%N ++ runes_of_ascii "`
+,
+
+    uint64	ClientId `" ++ [23458; 25143; 31471]%N ++ runes_of_ascii "ID`
+
+,
+	} packet
+Heartbeat  { } packet
+RiskControlRequest
+{ string
+UniqueOrderId`" ++ [21807; 19968; 35746; 21333; 21495]%N ++ runes_of_ascii "`
+,char[
+16	]ClOrdID
+`" ++ [23458; 25143; 35746; 21333; 21495]%N ++ runes_of_ascii "`
+,char[	3
+    ]MarketID	`" ++ [24066; 22330]%N ++ runes_of_ascii "id`	,
+	char[
+	12	]
+SecurityID
+
+    `" ++ [35777; 21048; 20195; 30721]%N ++ runes_of_ascii "`	,
+	char
+Side `" ++ [20080; 21334; 26041; 21521]%N ++ runes_of_ascii "`
+
+,
+    char
+    OrderType	`" ++ [35746; 21333; 31867; 22411]%N ++ runes_of_ascii "`,u64	Price
+
+    `" ++ [20215; 26684]%N ++ runes_of_ascii "`  ,u32
+Qty`" ++ [25968; 37327]%N ++ runes_of_ascii "` ,
+repeat  string ExtraInfo`" ++ [38468; 21152; 20449; 24687]%N ++ runes_of_ascii "` 
+,	repeat SubOrder
+
+{char[ 16
+	] ClOrdID
+`" ++ [23376; 35746; 21333; 21495]%N ++ runes_of_ascii "` ,	u64 Price `" ++ [23376; 35746; 21333; 20215; 26684]%N ++ runes_of_ascii "`
+,	u32
+Qty
+
+`" ++ [23376; 35746; 21333; 25968; 37327]%N ++ runes_of_ascii "`,
+    } 
+,	}
+packet	RiskControlResponse
+	{	string
+UniqueOrderId
+
+    `" ++ [21807; 19968; 35746; 21333; 21495]%N ++ runes_of_ascii "`, i32
+    Status`" ++ [29366; 24577]%N ++ runes_of_ascii "`
+	,
+	string
+
+    Msg 
+`" ++ [32467; 26524; 20449; 24687]%N ++ runes_of_ascii "`
+
+    ,
+
+repeat
+Detail
+,
+
+} 
+packet
+
+    Detail {
+    string
+RuleName`" ++ [35268; 21017; 21517; 31216]%N ++ runes_of_ascii "`
+, 
+u16
+	Code
+
+    `" ++ [21407; 22240; 20195; 30721]%N ++ runes_of_ascii "` , }
+")).
+Eval vm_compute in ("<<<M359>>>" ++ check (runes_of_ascii "root	packet // @lengthOf(
+repeatCount {
+    @lengthOf(u8x
+) @calculatedFrom(""1"" ) @tag( 007 ) repeat zchar[
+42 ] Header
+    `" ++ [28040; 24687; 31867; 22411]%N ++ runes_of_ascii "` , match options1 as asx
+{ 255
+    // `tick` ""quote"" 'q'
+    :
+    roots , }, // a // b
+Header
+    @lengthOf(
+    // a // b
+    options1	) `` , Header //	t
+@lengthOf(
+    len )`{ , }`
+, o matchKey `u8 x,` ,} packet packetx {zchar[
+255
+]
+crc
+    , }
+    packet
+    Logon {
+    body { float { repeat Logon  trueish ,  } , } ,	@calculatedFrom(
+    // `tick` ""quote"" 'q'
+    ""`tick`"" ) repeat char[
+    0] f32a
+,match body
+    as
+    float {[65535
+, """ ++ [28040; 24687]%N ++ runes_of_ascii """
+    ] :
+calculatedFrom ,}
+, u32 float@calculatedFrom(
+    """ ++ [233]%N ++ runes_of_ascii "t" ++ [233]%N ++ runes_of_ascii """ // @lengthOf(
+)
+, string body @lengthOf( len
+    )`
+` //
+, u8x
+@calculatedFrom( ""a\""b"")
+    //	t
+    , //	t
+float64 options1@calculatedFrom(""" ++ [128512]%N ++ runes_of_ascii """ )`it's`
+    ,
+//x
+// trailing space 
+match crc as chars
+    {
+3
+: options1 // @lengthOf(
+, [ 10 ] :_x  [ ""{,}""
+] :options1
+,[ ""CRC32"", ""a\\""  ,
+""a\\"" , ""packet"", 7
+    // `tick` ""quote"" 'q'
+    ]
+:
+As
+    } , i16 msg_type , }")).
+Eval vm_compute in ("<<<M1309>>>" ++ check (runes_of_ascii "// top
+packet // c0a
+  // c0b
+A { // c2
+u8 // c3a
+  // c3b
+a , // c5
+} // c6a
+  // c6b
+packet // c7a
+  // c7b
+B {
+    // c9
+u16 b // c11
+, } // c13a
+  // c13b
+packet // c14
+C
+    // c15
+{
+    // c16
+u32
+    // c17
+c // c18
+, // c19a
+  // c19b
+}
+    // c20
+root packet // c22a
+  // c22b
+M // c23
+{ u16 Kc
+    // c26
+,
+    // c27
+u16 // c28a
+  // c28b
+Kb , // c30
+u16 Ka
+    // c32
+, match // c34a
+  // c34b
+Kc // c35
+as X
+    // c37
+{
+    // c38
+9 // c39
+:
+    // c40
+A
+    // c41
+, 10 :
+    // c44
+B
+    // c45
+,
+    // c46
+} , match
+    // c49
+Kb // c50
+as // c51a
+  // c51b
+Y // c52
+{ 2 // c54a
+  // c54b
+:
+    // c55
+C , // c57
+1 // c58
+: A , // c61a
+  // c61b
+} // c62
+, // c63a
+  // c63b
+match
+    // c64
+Ka as // c66
+Z // c67
+{
+    // c68
+1 // c69a
+  // c69b
+: B // c71a
+  // c71b
+, // c72
+} // c73a
+  // c73b
+, // c74
+A // c75a
+  // c75b
+, // c76
+B
+    // c77
+,
+    // c78
+C , // c80
+} ")).
+Eval vm_compute in ("<<<M280>>>" ++ check (runes_of_ascii "packet	crc{@lengthOf( stringy// a // b
+) @leftPad (
+'0'
+    ) @calculatedFrom(
+""packet"" )
+repeat char[
+    // c
+    3]  i64_ // a // b
+, match
+    options1	as o { 255 :msg_type
+,
+    ""\n"": MetaDataX , 42: msg_type """ ++ [128512]%N ++ runes_of_ascii """
+    : lengthOf,""// no comment"" :falsey , }
+/// triple
+// trailing space 
+, @leftPad( )
+    @lengthOf( A
+    ) @calculatedFrom( ""x y"" ) uint32// a // b
+charz `doc`, len ,@calculatedFrom( ""// no comment"" ) match _x
+    //x
+    as i64_	{ 65535
+    :
+    // @lengthOf(
+    u8x , } ,
+char[]
+    a1 // @lengthOf(
+, Foo { u8x{ char[]
+Logon
+    `// not a comment`	,}, match metadata as u128 { // trailing space 
+42 : u8x
+, 65535 : f32a
+    } //x
+, asx// " ++ [128512]%N ++ runes_of_ascii " emoji
+@lengthOf( matchKey  ) ,} , roots @calculatedFrom( // packet A { u8 x, }
+""a\""b"" )
+,	zchar[
+7] int	, repeat pack	trueish ,
+    }
+")).
+Eval vm_compute in ("<<<M1516>>>" ++ check (runes_of_ascii "
+
+  packet
+crc  { @lengthOf(Header) 
+repeat
+
+roots  
+  // @lengthOf(
+	  `a\`  ,@lengthOf(  tag  ) match
+	x 
+as
+	string_ {
+[
+
+""a\\""
+
+, ""packet""
+]
+:Header	""// no comment"" 
+  /// triple
+: Logon,
+
+    7: 
+falsey	, 7
+
+:
+metadata [	7 ,
+	00
+]	:
+    // `tick` ""quote"" 'q'
+    repeatCount
+
+    3
+:
 
     u
 
-    // `tick` ""quote"" 'q'
-    ,
-
-    uint16  repeatCount, 
-msg_type tag ,
-    } packet x_y_z
-
-{ metadata
-{ i8i8
-
-chars 
-,
-	i64	chars
-,
-	}
-
-    ,	repeat 
-u16 asx 
-    // a // b
-    // a // b
-	,
-}
-packet 
-u8x
-	{@lengthOf(
-	BodyLength
-
-) @leftPad
-	( 
-    // a // b
-	  //
-  )
-
-    float  
-  /// triple
-
-	`
-`  ,
-    @calculatedFrom(
-""// no comment""	) float32  // " ++ [128512]%N ++ runes_of_ascii " emoji
-    chars	`// not a comment`
-    ,
-uint32  u128
-
-    ,@tag(
-0 
-)int16 tag ,
-leftPad	msg_type
-    ,// trailing space 
-  pack
-`tab	here` 
-, @lengthOf(
-
-repeatCount 
-// c
-		// c
-	) 
-zchar[
-4294967296
-
-    ]
-
-    len
-	,
-
-    i32	packetx  `tab	here`, calculatedFrom,metadata
-@calculatedFrom( ""// no comment"" )
-
-,
-
-    } options  {	// trailing space 
-	options1
-	= 
-42
-
-    ; i64_ 
-  // a // b
-  = char[]
-	falsey
-= 
-    // packet A { u8 x, }
-  //	t
-42 // a // b
-    Packet 
-=
-
-true 
-;  }
-
-")).
-Eval vm_compute in ("<<<M196>>>" ++ check (runes_of_ascii "root  packet u { match //x
-T as body// c
-{
-[
-""a\""b""
-    , 3 ] :
-stringy  ""a	b"" : charz // a // b
-,
-    10:  lengthOf// " ++ [128512]%N ++ runes_of_ascii " emoji
-, ""CRC32"" : falsey
-,
-    0123456789 : _x ,
-    } , body @lengthOf( i64_ )
-, u64 chars
-`u8 x,` ,T {i64_ string_,
-    u32 metadata , zchar[ 1
-]Z9_,}
-    // c
-    ,@calculatedFrom( ""a\\"" ) rootA // " ++ [128512]%N ++ runes_of_ascii " emoji
-x_y_z
-`u8 x,` ,
-    zchar[ 007 ]body @calculatedFrom(
-""\n""
-) ,
-    @leftPad (
-'0') @rightPad
-    ( '0' )
-@calculatedFrom( """ ++ [233]%N ++ runes_of_ascii "t" ++ [233]%N ++ runes_of_ascii """
-    )	repeat uint64 A	, repeat  u8x
-    { match
-o
-as
-x
-    {
-    10	:charz
-// " ++ [27880; 37322]%N ++ runes_of_ascii "
-// " ++ [27880; 37322]%N ++ runes_of_ascii "
-,""a	b"": matchKey
-, ""x y""
-:
-    trueish ,[ """ ++ [233]%N ++ runes_of_ascii "t" ++ [233]%N ++ runes_of_ascii """ ] : zchar,""1"" : charz // " ++ [27880; 37322]%N ++ runes_of_ascii "
-,
-[ ""a\""b"" ,
-""abc""
-, ""a\\"", ""abc"" ,
-// packet A { u8 x, }
-// " ++ [128512]%N ++ runes_of_ascii " emoji
-""""
-// packet A { u8 x, }
-/// triple
-] : u8x, } ,	},repeat falsey { rootA
-    tag ,
-    zchar[/// triple
-0 ] falsey ,  }
-    , charz a1 `{ , }`
-, } root
-packet /// triple
-Header{}
-")).
-Eval vm_compute in ("<<<M362>>>" ++ check (runes_of_ascii "MetaData len
-{i8 _x
-    //	t
-    `` , zchar[ 00 ] tag , roots
-u
-    // `tick` ""quote"" 'q'
-    ,uint16 repeatCount , msg_type tag , } packet x_y_z
-    {
-metadata { i8i8 chars
-,i64
-chars , }
-, repeat u16 asx
-// a // b
-// a // b
-,
-}	packet u8x  { @lengthOf( BodyLength	)	@leftPad(
-// a // b
-//
-)float
-    /// triple
-    `
-` ,
-@calculatedFrom( ""// no comment"" ) float32 // " ++ [128512]%N ++ runes_of_ascii " emoji
-chars`// not a comment` , uint32
-u128 , @tag( 0 )
-int16	tag , leftPad
-    msg_type , // trailing space 
-pack
-    `tab	here` ,
-@lengthOf(
-repeatCount
-// c
-// c
-)zchar[ 4294967296 ] len, i32 packetx`tab	here` , calculatedFrom ,metadata @calculatedFrom(
-""// no comment"" ) , } options { // trailing space 
-options1 = 42 ; i64_
-    // a // b
-    = char[] falsey=
-// packet A { u8 x, }
-//	t
-42 // a // b
-Packet =
-true
-;}
-")).
-Eval vm_compute in ("<<<M1371>>>" ++ check (runes_of_ascii "// top
-options // c0
-{ LittleEndian // c2
-= true // c4a
-  // c4b
-; // c5
-} // c6a
-  // c6b
-packet // c7
-Logon
-    // c8
-{
-    // c9
-u8 // c10a
-  // c10b
-x // c11a
-  // c11b
-, string // c13a
-  // c13b
-user // c14
-, // c15a
-  // c15b
-} packet // c17a
-  // c17b
-Logout {
-    // c19
-u16
-    // c20
-reason
-    // c21
-, // c22
-} // c23a
-  // c23b
-packet
-    // c24
-Empty // c25a
-  // c25b
-{ } root // c28
-packet
-    // c29
-Frame // c30a
-  // c30b
-{
-    // c31
-u16
-    // c32
-MsgType ,
-    // c34
-u8 // c35a
-  // c35b
-BodyLen // c36a
-  // c36b
-@lengthOf( Body // c38
-) , // c40a
-  // c40b
-u8
-    // c41
-flags // c42a
-  // c42b
-, // c43
-Logon
-    // c44
-Body
-    // c45
-, // c46
-u32 trailer // c48a
-  // c48b
-,
-    // c49
-} ")).
-Eval vm_compute in ("<<<M6>>>" ++ check (runes_of_ascii "// `tick` ""quote"" 'q'
-packet As
-{ @rightPad ( '0' ) stringy
-@lengthOf( calculatedFrom),	@tag( 10	) string uint8x `
-` ,	match body // packet A { u8 x, }
-as uint8x {
-    ""it's"" :  rootA , [ 00 ] : leftPad
-    ,
-42 :	MetaDataX , ""a	b"" :  calculatedFrom
-    255
-:trueish	} , repeat	i64 Logon `tab	here` , } options {crc
-= '\x00' ;}
-packet x { @calculatedFrom(
-""a\\""
-    )
-@tag( 42
-) @leftPad	( '0' // c
-) match o	as /// triple
-x_y_z {// packet A { u8 x, }
-[ """ ++ [128512]%N ++ runes_of_ascii """// trailing space 
-, ""x y"" , // c
-0123456789 ,""CRC32"" ,
-//	t
-// packet A { u8 x, }
-""it's""
-, 007
-, 3, 007 // @lengthOf(
-] :	Packet // c
-[	255, ""x y""
-    ] :x_y_z
-    ,
-} , }
-// trailing space 
-")).
-Eval vm_compute in ("<<<M260>>>" ++ check (runes_of_ascii "packet metadata{ @rightPad
-    (	) zchar[
-//	t
-// `tick` ""quote"" 'q'
-0123456789] i64_
-    // @lengthOf(
-    @calculatedFrom( ""\n"" ) , @leftPad (
-    ' '// " ++ [27880; 37322]%N ++ runes_of_ascii "
-) zchar[ // `tick` ""quote"" 'q'
-255
-]
-    MetaDataX `{ , }`// a // b
-, @rightPad (
-' ' )@calculatedFrom(""abc"" ) // " ++ [128512]%N ++ runes_of_ascii " emoji
-@lengthOf(
-matchKey
-// `tick` ""quote"" 'q'
-// `tick` ""quote"" 'q'
-)
-repeat char[ 42 ] packetx // packet A { u8 x, }
-`" ++ [233]%N ++ runes_of_ascii "` ,  trueish@calculatedFrom( ""packet"" )
-`a\` , matchKey int `" ++ [28040; 24687; 31867; 22411]%N ++ runes_of_ascii "` ,	@tag(
-    // c
-    0
-) len{ char[65535 ] Header,
-}
-,@lengthOf( f32a ) zchar[	10  ]
-    trueish `crlf
-line` ,  }
-")).
-Eval vm_compute in ("<<<M1374>>>" ++ check (runes_of_ascii "packet Sub { // c2a
-  // c2b
-u8 a
-    // c4
-, // c5
-@calculatedFrom( ""CRC16"" // c7
-)
-    // c8
-i32 // c9a
-  // c9b
-SubSum
-    // c10
-, }
-    // c12
-root packet // c14
-Frame // c15a
-  // c15b
-{ // c16a
-  // c16b
-u16 // c17a
-  // c17b
-MsgType // c18a
-  // c18b
-, // c19
-u16 BodyLen // c21a
-  // c21b
-@lengthOf( // c22
-Body // c23
-) // c24
-, Sub Body
-    // c27
-, // c28
-string note // c30
-,
-    // c31
-@calculatedFrom( // c32
-""CRC16"" ) // c34
-i32 // c35
-Checksum // c36
-, u8
-    // c38
-tail // c39a
-  // c39b
-,
-    // c40
-} // c41
-")).
-Eval vm_compute in ("<<<M1769>>>" ++ check (runes_of_ascii "packet Logon {
-    repeatCount {
-        BodyLength `crlf
-        line`,
-    },
-    zchar a1 `u8 x,`,
-    match Foo as Foo {
-        ""\n"" : i8i8,
-        [""abc"", ""CRC32""] : crc,
-        [
-            3, 42, 1, 255, ""x y"",
-            ""`tick`"", ""a\""b"", ""CRC32""
-        ] : repeatCount,
-        [
-            1, 007, 007, 7, 255,
-            ""\n"", ""// no comment""
-        ] : uint8x,
-        00 : f32a,
-    },
-    // a // b
-    uint16 Pad @lengthOf(uint8x) `doc`,
-}")).
-Eval vm_compute in ("<<<M1493>>>" ++ check (runes_of_ascii "MetaData float {int16 
-  // c
-  // " ++ [128512]%N ++ runes_of_ascii " emoji
-		chars , int8
-	_x 
-,char
-	charz ,
-Header  u8x
-
-    ,
-u16 
-_x
-	, 
-    // @lengthOf(
-
-	x_y_z repeatCount,
-	}
-
-packet	Foo	{
-    @tag(//	t
-1
-)
-string	Logon
-    `
-`	,
-	}	//x
-	options{ zchar  = ' ' trueish= 	 //x
-  """"
-
-    leftPad = 255
-; 
-}
-    root
-	packet
-    options1
-    {u64
-    packetx// `tick` ""quote"" 'q'
-@calculatedFrom(""// no comment"")
-``
-    ,
-}
-")).
-Eval vm_compute in ("<<<M1453>>>" ++ check (runes_of_ascii "
-packet	zchar
-
-    {
-
-    @calculatedFrom(  ""packet"" )
-@lengthOf(  body
-)
-@lengthOf(A ) repeat /// triple
-u128{ f32a
-chars `` 
-,
-	repeat  x_y_z  `tab	here`
-
-    ,  // c
-		}
-	,// " ++ [27880; 37322]%N ++ runes_of_ascii "
-  repeat Logon 
-{  // " ++ [27880; 37322]%N ++ runes_of_ascii "
-  u
-
-    @calculatedFrom( // `tick` ""quote"" 'q'
-""// no comment"")//
-    	`two words`  ,
-
-    char  u8x
-
-, uint32 uint8x 
-,
-	} , int8 asx 
-`` 
+    , }
 , 
-}
-")).
-Eval vm_compute in ("<<<M30>>>" ++ check (runes_of_ascii "packet
-repeatCount
-    {@calculatedFrom(	""abc"" ) zchar[
-    // @lengthOf(
-    0
-] // `tick` ""quote"" 'q'
-MetaDataX  `
-`	, string_
-@calculatedFrom( ""1""
-    ) ,	match string_
-    as msg_type{ [// a // b
-65535	,// a // b
-""a	b""
-    , 7
-    ,	255 ]:
-matchKey , 10 :
-    options1 , 3 :Logon
-    , } ,
-    // " ++ [27880; 37322]%N ++ runes_of_ascii "
-    packetx `a\` ,}
-")).
-Eval vm_compute in ("<<<M81>>>" ++ check (runes_of_ascii "root packet o {
-} MetaData uint8x
-    { int64 rootA  ,}
-    MetaData
-As{i32 // packet A { u8 x, }
-chars,	}packet Z9_// trailing space 
-{
-@leftPad( )char[]	x_y_z,} packet tag {	@leftPad(
-// " ++ [128512]%N ++ runes_of_ascii " emoji
+        //	t
+	@lengthOf(
+    u128 
+
+    //
+
 // " ++ [27880; 37322]%N ++ runes_of_ascii "
-' '
+
+  )
+@rightPad('\x00'// c
+		)  char[] 
+int,
+int16 Packet	@lengthOf(
+	string_
+
     )
-zchar[ 0 // `tick` ""quote"" 'q'
-] rootA @calculatedFrom(
-    ""a\\"" )
-    `tab	here`
-,}")).
-Eval vm_compute in ("<<<M94>>>" ++ check (runes_of_ascii "MetaData chars{ uint64	A, msg_type asx
+,  trueish
+{repeat
+	crc  {  zchar calculatedFrom, },
+	}
+	, 
+
+// @lengthOf(
+	//x
+
+@rightPad (
+)
+
+repeat
+	_x	pack// " ++ [27880; 37322]%N ++ runes_of_ascii "
+	  , @lengthOf( 
     // c
-    , Z9_  a1,
-    stringy
-    i64_ //
-`doc` , }packet
-/// triple
-// a // b
-x_y_z {	} options {
-float // c
-=float32 rootA= false ;
-repeatCount// c
-=  char[ 10 ]
-; }	packet Z9_{zchar[007 ]
-    //	t
-    charz // c
-,
-} //x")).
-Eval vm_compute in ("<<<M97>>>" ++ check (runes_of_ascii "packet
-i8i8 { repeat char[	00 ] Pad
-    `a\` ,
-@leftPad
-    (
-'\x00') string	a1@lengthOf(tag )``, float64
-    u128 @calculatedFrom( ""1""
-)  ,	@lengthOf( x
-    )
-    u128 @lengthOf( tag )
-`" ++ [28040; 24687; 31867; 22411]%N ++ runes_of_ascii "` , int64 u ,
-A//x
-T
-    `say ""hi""`
-, }
-")).
-Eval vm_compute in ("<<<M1824>>>" ++ check (runes_of_ascii "packet roots {
-    @calculatedFrom(""a\\"")
-    @lengthOf(packetx)
-    match repeatCount as body {
-        007 : lengthOf,
-        00 : zchar,
-    },
-    char[] chars `say ""hi""`,
-}
+// trailing space 
+  chars )repeat  string_ { repeat
 
-MetaData packetx {
-}")).
-Eval vm_compute in ("<<<M1293>>>" ++ check (runes_of_ascii "packet A {
-    u8 a,
-}
-packet B {
-    u16 b,
-}
-root packet P {
-    u8 K1,
-    u8 K2,
-    match K1 as M1 {
-        1 : A,
-    },
-    match K2 as M2 {
-        1 : B,
-    },
-}
-")).
-Eval vm_compute in ("<<<M73>>>" ++ check (runes_of_ascii "root
-    packet As { //
-char	charz @lengthOf( packetx
-) `{ , }`,//
-char[0123456789
-]
-MetaDataX
-// " ++ [27880; 37322]%N ++ runes_of_ascii "
-// `tick` ""quote"" 'q'
-`it's` , zchar[
-    7]o `u8 x,`
+    uint8x
+`// not a comment`
+	,
+    } 
 , }")).
-Eval vm_compute in ("<<<M1812>>>" ++ check (runes_of_ascii "MetaData tag {
-    body Packet,
-    int16 body,
-    f32a uint8x,
+Eval vm_compute in ("<<<M1238>>>" ++ check (runes_of_ascii "// top
+options
+    // c0
+{
+    // c1
+zchar
+    // c2
+=
+    // c3
+true
+    // c4
+;
+    // c5
+Pad
+    // c6
+=
+    // c7
+char[
+    // c8
+00
+    // c9
+]
+    // c10
+a1
+    // c11
+=
+    // c12
+uint32
+    // c13
+BodyLength
+    // c14
+=
+    // c15
+true
+    // c16
+;
+    // c17
+}
+    // c18
+root
+    // c19
+packet
+    // c20
+T
+    // c21
+{
+    // c22
+@lengthOf(
+    // c23
+repeatCount
+    // c24
+)
+    // c25
+@tag(
+    // c26
+1
+    // c27
+)
+    // c28
+@calculatedFrom(
+    // c29
+""a	b""
+    // c30
+)
+    // c31
+string
+    // c32
+stringy
+    // c33
+@calculatedFrom(
+    // c34
+""\n""
+    // c35
+)
+    // c36
+`u8 x,`
+    // c37
+,
+    // c38
+}
+    // c39
+")).
+Eval vm_compute in ("<<<M1312>>>" ++ check (runes_of_ascii "// top
+options // c0a
+  // c0b
+{ // c1a
+  // c1b
+FixedStringPadChar = // c3
+'0' ; } packet
+    // c7
+Q // c8
+{ // c9a
+  // c9b
+zchar[ // c10a
+  // c10b
+4 // c11
+] // c12
+z , // c14
+@rightPad ( // c16
+'\x00' ) // c18a
+  // c18b
+char[ 3 // c20a
+  // c20b
+]
+    // c21
+n ,
+    // c23
+char[
+    // c24
+5
+    // c25
+] // c26
+d // c27
+, } // c29a
+  // c29b
+root
+    // c30
+packet R
+    // c32
+{ // c33
+Q , // c35a
+  // c35b
+zchar[ 8 // c37
+] // c38
+top , // c40a
+  // c40b
+repeat
+    // c41
+zchar[
+    // c42
+2
+    // c43
+] // c44a
+  // c44b
+zs
+    // c45
+, // c46a
+  // c46b
+} // c47
+")).
+Eval vm_compute in ("<<<M1364>>>" ++ check (runes_of_ascii "options {
+    StringPrefixLenType = u8;
+    ArrayPrefixLenType = u8;
+    FixedStringPadFromLeft = false;
+    FixedStringPadChar = ' ';
+}
+packet Ack {
+    char[] tag7,
+}
+packet Reject {
+    InSym61 {
+        repeat Ack,
+        zchar[4] f1,
+    },
+}
+packet Logout {
+    char[4] clOrdID,
+}
+root packet Cancel {
+    @leftPad(' ') char[10] price,
+    u8 x,
+    u32 venue @lengthOf(Body),
+    match x as Body {
+        [92, 175] : Logout,
+        26 : Reject,
+        144 : Ack,
+    },
+    u16 count @calculatedFrom(""CRC32""),
+}
+")).
+Eval vm_compute in ("<<<M193>>>" ++ check (runes_of_ascii "
+root packet lengthOf{
+    char[ 3 ] Pad ,	@rightPad
+    (  '0'
+)
+    crc `doc` ,i32 //x
+uint8x
+,	zchar { match Logon  as int { [ 0 , """ ++ [233]%N ++ runes_of_ascii "t" ++ [233]%N ++ runes_of_ascii """] :o , ""// no comment"" :len ,
+} , asx
+{
+    //x
+    char[	10 ]
+u128 // a // b
+@lengthOf(  x_y_z)`say ""hi""`, }
+/// triple
+//
+, char[
+1 ] A, u// c
+chars
+    `` , }, repeat matchKey
+{ //x
+string trueish@calculatedFrom(
+    ""a	b""  )  , repeat
+    // packet A { u8 x, }
+    i8 msg_type `it's` ,	} , /// triple
+}
+packet float { }")).
+Eval vm_compute in ("<<<M1192>>>" ++ check (runes_of_ascii "// top
+MetaData
+    // c0
+uint8x
+    // c1
+{
+    // c2
+char[]
+    // c3
+f32a
+    // c4
+`// not a comment`
+    // c5
+,
+    // c6
+float32
+    // c7
+roots
+    // c8
+,
+    // c9
+char[
+    // c10
+7
+    // c11
+]
+    // c12
+u8x
+    // c13
+,
+    // c14
+zchar[
+    // c15
+10
+    // c16
+]
+    // c17
+f32a
+    // c18
+,
+    // c19
+u64
+    // c20
+pack
+    // c21
+,
+    // c22
+u16
+    // c23
+pack
+    // c24
+,
+    // c25
+}
+    // c26
+")).
+Eval vm_compute in ("<<<M292>>>" ++ check (runes_of_ascii "packet/// triple
+matchKey { float32 float,@calculatedFrom(""a\\""// " ++ [27880; 37322]%N ++ runes_of_ascii "
+) @rightPad
+( '\x00' )i16 tag  @calculatedFrom(""abc"" ) ,
+repeat zchar[255
+] pack
+    , @lengthOf( Z9_ ) tag , } // trailing space 
+root
+packet rootA { repeat metadata { Logon , }, @tag( 10)
+@lengthOf( A )
+@tag( 007)
+u32
+    options1, match float as u {0123456789 : u8x ,} ,	}// " ++ [27880; 37322]%N ++ runes_of_ascii "
+root packet lengthOf { }
+")).
+Eval vm_compute in ("<<<M178>>>" ++ check (runes_of_ascii "packet // c
+As
+{@tag( 42
+    )
+    repeat Logon	uint8x
+// " ++ [128512]%N ++ runes_of_ascii " emoji
+//
+``, repeat int32
+    x_y_z ,char[7 // trailing space 
+]	pack , repeat string crc
+/// triple
+// c
+`// not a comment`
+, @calculatedFrom(
+    ""`tick`""
+    ) @tag( 1 )match
+    // @lengthOf(
+    chars as
+MetaDataX { 4294967296 : // @lengthOf(
+T ,
+} /// triple
+,
+}
+")).
+Eval vm_compute in ("<<<M205>>>" ++ check (runes_of_ascii "  root packet
+    chars{ string T `say ""hi""`
+, @tag(
+    1  ) body { repeat o { f64 Packet @calculatedFrom( ""a\\"") ,  } , }	,
+} packet pack
+// @lengthOf(
+// a // b
+{
+@tag( 4294967296 // `tick` ""quote"" 'q'
+) repeat char[]
+    Logon
+    // trailing space 
+    , repeat
+BodyLength len ,
+    // c
+    }")).
+Eval vm_compute in ("<<<M1322>>>" ++ check (runes_of_ascii "packet
+
+    P1
+    { u8
+
+    a 
+,
+} packet
+
+P2  { 
+P1
+	,
+    }  packet	P3 {	P2  ,
+
+P1	,}
+	packet  P4
+
+{ 
+repeat  P3
+	,
+
+P2,
+
+}root
+
+    packet
+    P5 {
+P4,
+
+    P3
+
+,
+
+    P1 , u8	K
+    ,match
+    K as Body {
+	4:P4 ,
+3
+
+: P3 ,
+	2 : P2 , 1
+: P1	,
+}	,  }")).
+Eval vm_compute in ("<<<M190>>>" ++ check (runes_of_ascii "packet // @lengthOf(
+f32a
+    {	@rightPad (
+    '0' ) @lengthOf( BodyLength ) uint8 Foo ``,
+    //x
+    char[]
+    options1 @calculatedFrom(
+    ""it's"" ) ,@tag(255/// triple
+) uint64
+    Header @calculatedFrom( ""abc""
+) `
+`
+,}
+
+")).
+Eval vm_compute in ("<<<M1621>>>" ++ check (runes_of_ascii "
+
+  options
+{As
+=	true
+    MetaDataX
+    =
+    true
 }
 
-packet falsey {
-    x {
-        char[7] lengthOf,
-        char[] o `say ""hi""`,
-    },
-}")).
+packet A
+{
+repeat
+	calculatedFrom
+`say ""hi""` ,
+
+    }	MetaData crc
+
+    {
+
+u
+crc , uint32
+
+body
+
+    ,
+    i16  stringy
+
+    `u8 x,`,}
+")).
+Eval vm_compute in ("<<<M9>>>" ++ check (runes_of_ascii "
+options {body = """ ++ [28040; 24687]%N ++ runes_of_ascii """ }	packet matchKey
+{string_
+// packet A { u8 x, }
+// a // b
+@lengthOf( f32a) ,	int32 int @lengthOf(u128 )	, tag x_y_z ,}packet BodyLength /// triple
+{ }")).
+Eval vm_compute in ("<<<M145>>>" ++ check (runes_of_ascii "MetaData //x
+Packet
+/// triple
+// " ++ [27880; 37322]%N ++ runes_of_ascii "
+{	u
+/// triple
+// c
+lengthOf `say ""hi""`
+    , } MetaData metadata {
+    crc chars `crlf
+line` , asx f32a /// triple
+,
+}
+
+")).
+Eval vm_compute in ("<<<M478>>>" ++ check (runes_of_ascii "packet uint8x
+{ match pack
+    as msg_type	{
+    0123456789 :	float
+}
+,
+} packet //	t
+a1
+    { char[ options {packetx
+    = '\x00'	; u128= ""a	b""  ; }
+")).
 Eval vm_compute in ("<<<M506>>>" ++ check (runes_of_ascii "packet uint8x
 { match pack
     as msg_type	{
@@ -790,9 +928,9 @@ a1
     { } options {packetx
     = '\x00'	; ; u128= ""a	b""  ; }
 ")).
-Eval vm_compute in ("<<<M417>>>" ++ check (runes_of_ascii "packet uint8x
+Eval vm_compute in ("<<<M422>>>" ++ check (runes_of_ascii "packet uint8x
 { match pack
-    msg_type as	{
+    as {	msg_type
     0123456789 :	float
 }
 ,
@@ -801,10 +939,10 @@ a1
     { } options {packetx
     = '\x00'	; u128= ""a	b""  ; }
 ")).
-Eval vm_compute in ("<<<M425>>>" ++ check (runes_of_ascii "packet uint8x
+Eval vm_compute in ("<<<M435>>>" ++ check (runes_of_ascii "packet uint8x
 { match pack
-    as msg_type	
-    0123456789 :	float
+    as msg_type	{
+    0123456789 	float
 }
 ,
 } packet //	t
@@ -812,19 +950,15 @@ a1
     { } options {packetx
     = '\x00'	; u128= ""a	b""  ; }
 ")).
-Eval vm_compute in ("<<<M1818>>>" ++ check (runes_of_ascii "packet
-	u128	//x
-
-  {  @calculatedFrom(
-""x y""
-) 	 // `tick` ""quote"" 'q'
-  @rightPad( ' ' )
-
-    char[ 42] 
-Header @calculatedFrom( ""abc"" 
-),
+Eval vm_compute in ("<<<M1886>>>" ++ check (runes_of_ascii "root packet packetx {
+    char[1] chars @calculatedFrom(""packet"") `say ""hi""`,
 }
-")).
+
+options {
+    asx = 65535
+    u = float64
+    repeatCount = ""\" ++ [233]%N ++ runes_of_ascii """
+}")).
 Eval vm_compute in ("<<<M657>>>" ++ check (runes_of_ascii "// @lengthOf(
 packet i8i8 { u128 o , }
 options { MetaDataX = true;
@@ -833,16 +967,14 @@ options { MetaDataX = true;
 = ""abc"" ;
     msg_type =
 i16 }")).
-Eval vm_compute in ("<<<M185>>>" ++ check (runes_of_ascii "root packet lengthOf{ @leftPad
-    (
-' '// c
-)
-repeat char MetaDataX
-,
-}MetaData
-Pad {
-msg_type rootA// trailing space 
-`// not a comment`, }")).
+Eval vm_compute in ("<<<M689>>>" ++ check (runes_of_ascii "// @lengthOf(
+packet i8i8 { u128 o , }
+options { MetaDataX  true;
+    BodyLength =""packet"" x_y_z= 007
+crc //x
+= ""abc"" ;
+    msg_type =
+i16 }")).
 Eval vm_compute in ("<<<M697>>>" ++ check (runes_of_ascii "// @lengthOf(
 packet i8i8 { u128 o , }
 , { MetaDataX = true;
@@ -851,143 +983,143 @@ crc //x
 = ""abc"" ;
     msg_type =
 i16 }")).
-Eval vm_compute in ("<<<M1449>>>" ++ check (runes_of_ascii "packet A {
-    u16 len @lengthOf(body) `tab
-        	x`,
-    u32 crc @calculatedFrom(""CRC32"") `tab
-        	x`,
-    string body,
-}")).
-Eval vm_compute in ("<<<M1543>>>" ++ check (runes_of_ascii "packet B {
+Eval vm_compute in ("<<<M1296>>>" ++ check (runes_of_ascii "packet A {
     u8 a,
 }
-
+packet B {
+    u16 b,
+}
 root packet P {
     u8 K,
-    u8 L @lengthOf(Body),
+    match K as M {
+        1 : A,
+        1 : B,
+    },
+}
+")).
+Eval vm_compute in ("<<<M1261>>>" ++ check (runes_of_ascii "packet B {
+    u8 a,
+}
+root packet P {
+    u8 K,
+    u64 L @lengthOf(Body),
     match K as Body {
         1 : B,
     },
-}")).
-Eval vm_compute in ("<<<M1163>>>" ++ check (runes_of_ascii "MetaData leftPad { chars MetaDataX , } packet repeatCount { char[ // c
-255 ] uint8x `" ++ [233]%N ++ runes_of_ascii "` , } MetaData pack { As Foo , }")).
-Eval vm_compute in ("<<<M1474>>>" ++ check (runes_of_ascii "
-packet A	{	match	k
-
-as n
-{ [
-
-""a""  ,
-""bb""
-    , 
-""c c"" ,
-
-""d"" ,
-
-    ""e"" ,""f""
+}
+")).
+Eval vm_compute in ("<<<M1151>>>" ++ check (runes_of_ascii "MetaData leftPad { chars MetaDataX // c
+, } packet repeatCount { char[ 255 ] uint8x `" ++ [233]%N ++ runes_of_ascii "` , } MetaData pack { As Foo , }")).
+Eval vm_compute in ("<<<M1183>>>" ++ check (runes_of_ascii "MetaData leftPad { chars MetaDataX , } packet repeatCount { char[ 255 ] uint8x `" ++ [233]%N ++ runes_of_ascii "` , } MetaData pack { As // c
+Foo , }")).
+Eval vm_compute in ("<<<M239>>>" ++ check (runes_of_ascii "options { lengthOf =3
+trueish
+// packet A { u8 x, }
+// trailing space 
+=
+    true
+; calculatedFrom =
+007;} 	 ")).
+Eval vm_compute in ("<<<M1269>>>" ++ check (runes_of_ascii "  packet	B
+{
+u8 a , 
+string	s
 	,
-	""g"" , ""h""]
+    }
+    root
+	packet P
 
-:  B,2 
-:
-	C} ,
+{ u16
+
+L @lengthOf( B ), B
+    , 
+u8  t ,
 }
 ")).
-Eval vm_compute in ("<<<M1244>>>" ++ check (runes_of_ascii "// top
-root // c0
-packet // c1
-P { // c3
-repeat // c4
-char cs
-    // c6
-, u8 x // c9a
-  // c9b
+Eval vm_compute in ("<<<M1604>>>" ++ check (runes_of_ascii "
+
+  packet
+A { 
+match k
+
+as
+n{
+	[ ""a"", ""bb"" ,
+	""c c""
+
+,
+""d""
+	, ""e""
+
+    ,
+	""f"" 
+] :B	2	:  C
+
+}
 , }
-    // c11
 ")).
-Eval vm_compute in ("<<<M535>>>" ++ check (runes_of_ascii "packet uint8x
+Eval vm_compute in ("<<<M554>>>" ++ check (runes_of_ascii "
+packet packet
+    asx {match u128 as lengthOf
+{
+//	t
+// `tick` ""quote"" 'q'
+255 : x ,
+    } ,	}")).
+Eval vm_compute in ("<<<M887>>>" ++ check (runes_of_ascii "packet A {
+  match k as n {
+    [1, 22, ""c c"", 4, 5, ""f"", 7, 8, ""i"", 10] : B
+    2 : C
+  },
+}")).
+Eval vm_compute in ("<<<M388>>>" ++ check (runes_of_ascii "root packet SimpleMessage {
+    uint16 MsgType `" ++ [28040; 24687; 31867; 22411]%N ++ runes_of_ascii "`,
+    string JsonBody `Json" ++ [23383; 31526; 20018; 28040; 24687; 20307]%N ++ runes_of_ascii "`,
+}")).
+Eval vm_compute in ("<<<M859>>>" ++ check (runes_of_ascii "packet A {
+  match k as n {
+    [""a"", 22, ""c c"", 4, ""e"", 66, ""g"", 8] : B
+    2 : C
+  },
+}")).
+Eval vm_compute in ("<<<M846>>>" ++ check (runes_of_ascii "packet A {
+  match k as n {
+    [""a"", 22, ""c c"", 4, ""e"", 66, ""g""] : B
+    2 : C
+  },
+}")).
+Eval vm_compute in ("<<<M1414>>>" ++ check (runes_of_ascii "packet A {
+    match k as n {
+        [""a"", 22, ""c c""] : B,
+        2 : C,
+    },
+}")).
+Eval vm_compute in ("<<<M1456>>>" ++ check (runes_of_ascii "  packet
+
+A
+{ @tag(
+	1
+
+) // a
+  @leftPad
+(
+'0'	)// b
+  char[
+
+4	]
+x
+,}
+")).
+Eval vm_compute in ("<<<M811>>>" ++ check (runes_of_ascii "packet A {
+  match k as n {
+    [""a"", ""bb"", 007, ""d""] : B
+    2 : C
+  },
+}")).
+Eval vm_compute in ("<<<M454>>>" ++ check (runes_of_ascii "packet uint8x
 { match pack
     as msg_type	{
     0123456789 :	float
-}
-,
-} packet //	t
-a1
-    { } opti")).
-Eval vm_compute in ("<<<M484>>>" ++ check (runes_of_ascii "packet uint8x
-{ match pack
-    as msg_type	{
-    0123456789 :	float
-}
-,
-} packet //	t
-a1
-    { }")).
-Eval vm_compute in ("<<<M1267>>>" ++ check (runes_of_ascii "packet B {
-    u8 a,
-    string s,
-}
-root packet P {
-    u16 L @lengthOf(B),
-    B,
-    u8 t,
-}
-")).
-Eval vm_compute in ("<<<M642>>>" ++ check (runes_of_ascii "
-packet
-    asx {match u128 as lengthOf
-{'1'
-//	t
-// `tick` ""quote"" 'q'
-255 : x ,
-    } ,	}")).
-Eval vm_compute in ("<<<M638>>>" ++ check (runes_of_ascii "
-packet
-    asx {match u128 as leng""thOf
-{
-//	t
-// `tick` ""quote"" 'q'
-255 : x ,
-    } ,	}")).
-Eval vm_compute in ("<<<M597>>>" ++ check (runes_of_ascii "
-packet
-    asx {match u128 as lengthOf
-{
-//	t
-// `tick` ""quote"" 'q'
-255  x ,
-    } ,	}")).
-Eval vm_compute in ("<<<M621>>>" ++ check (runes_of_ascii "
-packet
-    asx {match u128 as lengthOf
-{
-//	t
-// `tick` ""quote"" 'q'
-255 : x ,
-    }")).
-Eval vm_compute in ("<<<M847>>>" ++ check (runes_of_ascii "packet A {
-  match k as n {
-    [1, 22, ""c c"", 4, 5, ""f"", 7] : B,
-    2 : C
-  },
-}")).
-Eval vm_compute in ("<<<M835>>>" ++ check (runes_of_ascii "packet A {
-  match k as n {
-    [1, 22, ""c c"", 4, 5, ""f""] : B
-    2 : C
-  },
-}")).
-Eval vm_compute in ("<<<M821>>>" ++ check (runes_of_ascii "packet A {
-  match k as n {
-    [1, 22, ""c c"", 4, 5] : B,
-    2 : C
-  },
-}")).
-Eval vm_compute in ("<<<M814>>>" ++ check (runes_of_ascii "packet A {
-  match k as n {
-    [1, 22, 007, 4, 5] : B
-    2 : C
-  },
 }")).
 Eval vm_compute in ("<<<M1098>>>" ++ check (runes_of_ascii "packet A {
     match k as n {
@@ -995,81 +1127,68 @@ Eval vm_compute in ("<<<M1098>>>" ++ check (runes_of_ascii "packet A {
         // c
     },
 }")).
-Eval vm_compute in ("<<<M1534>>>" ++ check (runes_of_ascii "packet A
-    {match 
-k as
-    n
-
-{
-1
-: 
-B
-
-, 
-	// c
-}  ,
-
-}
-")).
-Eval vm_compute in ("<<<M773>>>" ++ check (runes_of_ascii "packet A {
+Eval vm_compute in ("<<<M778>>>" ++ check (runes_of_ascii "packet A {
   match k as n {
-    [1] : B,
+    [1, 22] : B,
     2 : C
   },
 }")).
-Eval vm_compute in ("<<<M963>>>" ++ check (runes_of_ascii "MetaData M {
-    u8 x `tab
-	x`,
-    T t `tab
-	x`,
+Eval vm_compute in ("<<<M930>>>" ++ check (runes_of_ascii "packet A {
+    B b `
+`,
+    B `
+`,
+    repeat B bs `
+`,
 }")).
-Eval vm_compute in ("<<<M1770>>>" ++ check (runes_of_ascii "options	{ 
-a
-=
-
-1 
-; // a
-
-  b
-    =
-	2 	 // b
-}")).
-Eval vm_compute in ("<<<M1095>>>" ++ check (runes_of_ascii "packet A { char[ // a
- 3 // b
- ] // c
- x, }")).
-Eval vm_compute in ("<<<M1875>>>" ++ check (runes_of_ascii "
-MetaData
-
-M
-	{} 	 // c
-	options {
+Eval vm_compute in ("<<<M159>>>" ++ check (runes_of_ascii "root packet x  { roots @calculatedFrom(""a\""b"" ) , }")).
+Eval vm_compute in ("<<<M1520>>>" ++ check (runes_of_ascii "packet body {
+    i32 f32a `{ , }`,
 }
 
-")).
-Eval vm_compute in ("<<<M1090>>>" ++ check (runes_of_ascii "packet A { @tag( // a
- 1 ) u8 x, }")).
-Eval vm_compute in ("<<<M978>>>" ++ check (runes_of_ascii "packet A {
- u8 x `d `, // c 
+options {
 }")).
-Eval vm_compute in ("<<<M419>>>" ++ check (runes_of_ascii "packet uint8x
-{ match pack")).
-Eval vm_compute in ("<<<M1660>>>" ++ check (runes_of_ascii "// top
-MetaData tag {
+Eval vm_compute in ("<<<M921>>>" ++ check (runes_of_ascii "MetaData M {
+    u8 x `a
+b`,
+    T t `a
+b`,
 }")).
-Eval vm_compute in ("<<<M1794>>>" ++ check (runes_of_ascii "
-packet
-	falsey{ }
+Eval vm_compute in ("<<<M1894>>>" ++ check (runes_of_ascii "  root	packet
 
-")).
-Eval vm_compute in ("<<<M976>>>" ++ check (runes_of_ascii "packet A {
+A{
+
+    u8
+x 
+`
+x`	,
+} ")).
+Eval vm_compute in ("<<<M1092>>>" ++ check (runes_of_ascii "root // a
+ packet // b
+ A // c
+ { }")).
+Eval vm_compute in ("<<<M738>>>" ++ check (runes_of_ascii "\B1ss""~3@|Nr!9$[0mx>ti>t+Fp_cN&")).
+Eval vm_compute in ("<<<M1524>>>" ++ check (runes_of_ascii "root
+
+    packet
+chars {
 }
-// c ")).
-Eval vm_compute in ("<<<M1057>>>" ++ check (runes_of_ascii "// c" ++ [6158]%N ++ runes_of_ascii "
+")).
+Eval vm_compute in ("<<<M338>>>" ++ check (runes_of_ascii "root packet
+msg_type { }
+")).
+Eval vm_compute in ("<<<M747>>>" ++ check (runes_of_ascii "true int16 u16 { f32a")).
+Eval vm_compute in ("<<<M1061>>>" ++ check (runes_of_ascii "packet A {
+}
+// c x")).
+Eval vm_compute in ("<<<M1012>>>" ++ check (runes_of_ascii "// c" ++ [8232]%N ++ runes_of_ascii "
 packet A {
 }")).
-Eval vm_compute in ("<<<M1226>>>" ++ check (runes_of_ascii "packet // c
-x { }")).
-Eval vm_compute in ("<<<M742>>>" ++ check (runes_of_ascii "'j=KG=k_)FDOq")).
-Eval vm_compute in ("<<<M1005>>>" ++ check (runes_of_ascii "// c" ++ [8202]%N)).
-Eval vm_compute in ("<<<M731>>>" ++ check (runes_of_ascii "/")).
+Eval vm_compute in ("<<<M984>>>" ++ check (runes_of_ascii "packet A {
+}// c" ++ [160]%N)).
+Eval vm_compute in ("<<<M1682>>>" ++ check (runes_of_ascii "packet x {
+}// c")).
+Eval vm_compute in ("<<<M1715>>>" ++ check (runes_of_ascii "/// triple")).
+Eval vm_compute in ("<<<M157>>>" ++ check (runes_of_ascii "//
+
+")).
